@@ -126,6 +126,17 @@ CLAIMED["C10"] = (
     "sync.Pool really recycles (reuse counted in the evidence).",
     "sync.Pool recycling is observed, not forced; Router() of foreign contexts is outside the statement; trusted: TLC", "6 C10")
 
+CLAIMED["C13"] = (
+    "TLA+ spec RuxDefs: a three-valued verdict function (reject / accept / unspecified) over token strings, methods, handler and "
+    "handler counts, checked total and consistent by TLC over every token string; every definition registered on the real router "
+    "and every accepted one probed with odd methods and paths under four option sets",
+    "Every path definition of <=3/4 tokens over 15 tokens (and <=5/7 over a reduced alphabet with variable regexes and groups), "
+    "normalised per StrictLastSlash, plus the method-name / nil-handler / handler-count / options-after-routes block: reject => "
+    "registration panics, accept => it does not, and whatever registration accepts never panics in Match or ServeHTTP for 7 method "
+    "strings x 29 paths (empty, blank, non-UTF-8, 300 characters, metacharacters) incl. caching routers.",
+    "the verdict is deliberately silent (unspecified) on text outside the documented grammar that the statement does not list; "
+    "trusted: TLC", "6 C13")
+
 PENDING = {}
 
 
